@@ -449,14 +449,17 @@ def tigerxml_encode(treebank, rng=None, sid_format='s%d', encoding='utf-8',
             for t in toks_:
                 ids[id(t)] = '%s%d' % (pre, t.num)
         cons = [n for n in root.nodes() if n.children]
-        drop_root = not with_vroot
+        drop_root = not with_vroot or bool(spec.get('no_vroot'))
         if spec['sid'] in headless:
             # an ill-formed sentence: the root node is left out although
             # it has several children (several nodes without a parent)
             drop_root = True
             cons = [n for n in cons if n is not root]
-        elif not with_vroot:
-            if len(root.children) != 1 or not root.children[0].children:
+        elif drop_root:
+            # the single child of the root becomes the top node; when it is
+            # a token the sentence has no <nt> at all (one-token sentences
+            # of third-party TIGER-XML files)
+            if len(root.children) != 1:
                 raise ValueError('cannot drop the root of this tree')
             cons = [n for n in cons if n is not root]
         numbered = sorted(cons, key=lambda n: (n.height(), n.first()))
